@@ -335,6 +335,138 @@ def rule_gensym(ck, facts, lang, R="C09.gensym"):
     ck.require(R, bool(gens), "anchor|gensym", "no gensym function (formats a name from a counter) found in translate_staging")
 
 
+REWRITERS = (
+    "compiler::translate_staging::translate_stage0",
+    "compiler::translate_staging::translate_code",
+    "compiler::mirgen::convert_pronoun::convert_macro_pipe",
+    "compiler::mirgen::convert_pronoun::convert_macroexpand",
+    "compiler::mirgen::convert_pronoun::convert_operators",
+)
+
+
+def _find_aggs(e, enum, out, depth=0):
+    if not isinstance(e, tuple) or depth > 30:
+        return
+    if e and e[0] == "agg" and isinstance(e[1], str) and e[1].startswith(enum + "::"):
+        out.append(e)
+    for x in e:
+        if isinstance(x, tuple):
+            _find_aggs(x, enum, out, depth + 1)
+
+
+def rule_rebuild(ck, facts, lang, R="C09.rebuild"):
+    """tree rewriters: an arm that rebuilds the form it matched must put *transformed* children into the new node"""
+    from ..rules import cover
+    from ..symex import PathLimit, SymEx
+    ck.rule(R, "in the staging translation and the macro desugaring passes, an arm that rebuilds the Expr form it matched does not put an untransformed sub-expression of the matched node into the new node: every expression-valued operand of the rebuilt node is the result of a call (the recursive transformation), never the raw payload field")
+    adt = facts.adt(roles.EXPR)
+    fields = {v["n"]: v["f"] for v in adt["variants"]}
+    n = 0
+    for short in REWRITERS:
+        f = facts.fn("mimium_lang::" + short)
+        if f is None:
+            ck.bad(R, "anchor|%s" % short, "rewriting pass %s not found" % short)
+            continue
+        cov = cover.coverage(facts, f, roles.EXPR)
+        if cov is None:
+            ck.bad(R, "anchor|match|%s" % short, "%s does not match on Expr" % short, f.where())
+            continue
+        for v in sorted(cov.primary_handled()):
+            if cov.arm_diverges(v) or cov.arm_target(v) is None:
+                continue
+            exprish = [j for j, (fname, fty) in enumerate(fields.get(v, [])) if "ExprNodeId" in fty and "Vec" not in fty]
+            if not exprish:
+                continue
+            sx = SymEx(f, payload_place=cov.primary.place, max_paths=96, max_steps=6000, facts=facts)
+            try:
+                paths = sx.run(cov.arm_target(v))
+            except PathLimit:
+                paths = sx.paths
+            raw = None
+            rebuilt = False
+            for p in paths:
+                if p.end != "return":
+                    continue
+                aggs = []
+                for e in p.events:
+                    if e[0] == "call":
+                        _find_aggs(e[2], roles.EXPR, aggs)
+                _find_aggs(p.env.get(0), roles.EXPR, aggs)
+                for a in aggs:
+                    if a[1].rsplit("::", 1)[1] != v:
+                        continue
+                    rebuilt = True
+                    for j, o in enumerate(a[2]):
+                        x = o
+                        while isinstance(x, tuple) and x and x[0] in ("ref", "deref"):
+                            x = x[1]
+                        if isinstance(x, tuple) and x and x[0] == "pay" and x[1] == v and x[2] in exprish:
+                            raw = (j, x[2])
+            if not rebuilt:
+                continue
+            n += 1
+            key = "child|%s|%s" % (short.split("::")[-1], v)
+            if raw is None:
+                ck.ok(R, key)
+            else:
+                ck.bad(R, key, "%s: the arm for Expr::%s rebuilds the node with its payload field %d (%s) untransformed as operand %d: quotes / escapes / macro forms inside that sub-expression survive the pass, so the staged program is not the one its splices generate" % (short, v, raw[1], fields[v][raw[1]][0], raw[0]), f.where())
+    ck.floor(R, "rebuilding_arms_checked", n, 14)
+
+
+def rule_subst_order(ck, facts, lang, R="C09.subst-order"):
+    """by-name substitution that does not look at binders is only sound on terms whose sub-terms were normalised first"""
+    from ..rules import cover
+    from ..symex import PathLimit, SymEx
+    ck.rule(R, "a substitution that replaces `$name` by an expression without comparing `name` with the binders it passes (no Lambda/Let arm) is only applied to a term that the calling pass has already normalised bottom-up (the term derives from the caller's own recursive call): placeholder parameters are named by position, so an inner un-expanded pipe binds the same name")
+    subs = []
+    for f in lang.fns:
+        if "::compiler::mirgen::convert_pronoun::" not in f.path or f.kind != "fn":
+            continue
+        argc = f.d.get("argc", 0)
+        returns_arg = any(s2[KIND] == "a" and s2[4][0] == 0 and not s2[4][1] and s2[5][0] == "use" and s2[5][1][0] in ("cp", "mv") and not s2[5][1][1][1] and 2 <= s2[5][1][1][0] <= argc for _, s2 in f.all_stmts())
+        if not returns_arg:
+            continue
+        cov = cover.coverage(facts, f, roles.EXPR)
+        if cov is None or "Escape" not in cov.primary_handled():
+            continue
+        binder_aware = any(v in cov.primary_handled() for v in ("Lambda", "Let", "LetRec"))
+        subs.append((f, binder_aware))
+    ck.require(R, len(subs) >= 1, "anchor|substitution", "no by-name substitution function found in convert_pronoun (anchor lost)")
+    n = 0
+    for sf, binder_aware in subs:
+        for f in lang.fns:
+            if f.kind == "promoted" or f.path == sf.path or f.root == sf.path:
+                continue
+            sites = [t for _, t in f.calls() if (callee(t) or "") == sf.path]
+            if not sites:
+                continue
+            n += len(sites)
+            key = "caller|%s|%s" % (f.short.split("::")[-1], sf.short.split("::")[-1])
+            if binder_aware:
+                ck.ok(R, key, {"substitution": sf.short, "capture_avoiding": True})
+                continue
+            sx = SymEx(f, max_paths=200, max_steps=12000, facts=facts)
+            try:
+                paths = sx.run(0)
+            except PathLimit:
+                paths = sx.paths
+            bad = None
+            seen = 0
+            for p in paths:
+                for e in p.events:
+                    if e[0] == "call" and any(e[3] is t for t in sites):
+                        seen += 1
+                        if f.path not in repr(e[2][0]):
+                            bad = e[3]
+            if seen == 0:
+                ck.bad(R, "unanalysable|%s" % f.short.split("::")[-1], "call of %s in %s not reached symbolically" % (sf.short, f.short), f.where(sites[0]))
+            elif bad is None:
+                ck.ok(R, key, {"substitution": sf.short, "term": "result of the caller's own recursive normalisation"})
+            else:
+                ck.bad(R, key, "%s applies the by-name substitution %s to a sub-term it has not normalised first (the term does not derive from %s's own recursive call): an inner macro pipe that is still un-expanded binds the same positional placeholder name, and its `$placeholder` is replaced by the outer argument (the generated code uses the wrong value)" % (f.short, sf.short.split("::")[-1], f.short.split("::")[-1]), f.where(bad))
+    ck.floor(R, "substitution_call_sites", n, 1)
+
+
 def run(ck, facts, tier):
     lang = facts.crate(roles.LANG)
     rule_forms(ck, facts, lang)
@@ -343,4 +475,6 @@ def run(ck, facts, tier):
     rule_offsets(ck, facts, lang)
     rule_numbers(ck, facts, lang)
     rule_gensym(ck, facts, lang)
+    rule_rebuild(ck, facts, lang)
+    rule_subst_order(ck, facts, lang)
     ck.not_decided("equality of the outputs of a staged program and its hand expansion; `f!(args)` = splice of `f(args)` as behaviour")
